@@ -48,18 +48,17 @@ def spawn(job, hashseed, cwd):
                          env=worker_env(hashseed), cwd=cwd, text=True)
     p.stdin.write(json.dumps(job))
     p.stdin.close()
+    p.stdin = None
     return p
 
 
 def collect(p, timeout):
     try:
-        p.wait(timeout=timeout)
+        out, err = p.communicate(timeout=timeout)
     except subprocess.TimeoutExpired:
         p.kill()
-        p.wait()
-        return None, "worker exceeded wall timeout\n" + (p.stderr.read()[-2000:] if p.stderr else "")
-    out = p.stdout.read()
-    err = p.stderr.read()
+        out, err = p.communicate()
+        return None, "worker exceeded wall timeout\n" + (err or "")[-2000:]
     if p.returncode != 0:
         return None, "worker exit %s\n%s" % (p.returncode, err[-4000:])
     lines = [ln for ln in out.splitlines() if ln.startswith("{")]
@@ -273,7 +272,7 @@ def cmd_check(check, tier, args):
     by_class = {}
     for v in agg["violations"]:
         k = (v["case"]["machine"],) + tuple((v["violation"]["property"], v["violation"]["oracle"], v["violation"]["observable"]))
-        by_class.setdefault(k, []).append(v)
+        by_class.setdefault(k + (v.get("tag", ""),), []).append(v)
     n_shrunk = 0
     rdir = os.environ.get("KSIM_REPLAY_DIR") or os.path.join(VERIF, "replays")
     todo = []
@@ -281,9 +280,9 @@ def cmd_check(check, tier, args):
     for k, vs in sorted(by_class.items()):
         for v in vs[:per_class]:
             todo.append((k, v, os.path.join(rdir, check, "%d.json" % v["seed"])))
-    todo = todo[:32]
+    todo = todo[:48]
     # shrink in parallel (each in a fresh interpreter with the hash seed of the failing run), then replay each file
-    shr = parallel_jobs([({"mode": "shrink", "case": v["case"], "klass": list(k[1:]), "path": path, "check": check,
+    shr = parallel_jobs([({"mode": "shrink", "case": v["case"], "klass": list(k[1:4]), "path": path, "check": check,
                            "hashseed": v["hashseed"], "max_runs": 400}, v["hashseed"]) for k, v, path in todo], workers)
     for (k, v, path), (r, err) in zip(todo, shr):
         n_shrunk += 1
